@@ -30,8 +30,12 @@ Definition check_cross (c : list (list bool) * list nat * list nat * (Q * list Q
 """
 
 
+TRANSLATORS = [('pyx_cross', 'CrossK')]
+
+
 def theorems(ctx):
     ctx.modelled += MODELLED
+    ctx.generate(TRANSLATORS)
     ctx.theorems()
     if ctx.tier == "thorough":
         ctx.coqchk()
